@@ -486,7 +486,7 @@ package graphql
 //@ trusted dyn:creator() (cf)
 //@ func getOrCreateAndAppendField [C01]
 //@   requires c != nil
-//@   replay collectFieldsInterfaces.go.tmpl
+//@   replay collectFieldsInterfaces.go.tmpl for :step:
 //@   ensures res0 != nil
 //@   ensures calls("dyn:creator") <= 1
 // the scan moves past an entry only if that entry must not be merged with the new selection: an entry with the same
@@ -507,7 +507,7 @@ package graphql
 //@   pure
 //@ func collectFields [C01,C07,C13]
 //@   requires reqCtx != nil
-//@   replay collectFieldsSpread.go.tmpl
+//@   replay collectFieldsSpread.go.tmpl for visited
 //@   ghost inc = false
 //@   at `shouldIncludeNode(sel.Directives, reqCtx.Variables)`#1 requires arg0 == sel.Directives
 //@   at `shouldIncludeNode(sel.Directives, reqCtx.Variables)`#1 ghost inc = callres0
